@@ -55,9 +55,8 @@ CLAIMED = {
         'For every ROADM configuration, degree pair and spectrum of the model: out = min(target+offset, pin-loss), no '
         'gain, cap, exactness, shares untouched, resolution degree>node, design step preserves targets, exactly-one-policy '
         'acceptance/rejection; run against the real Roadm.__call__, json_io/RoadmParams loading and design (1e-9 dB).',
-        'Harness-computed log10 values for PSD/PSW/baud/slot enter the model as inputs. set_targets_ok proved outside the '
-        'open finding F12 (0 dBm node target; refutation witness included); null policy values (F16) excluded from '
-        'one_policy_accepted. PMD/PDL quadrature checked by the oracle only.',
+        'Harness-computed log10 values for PSD/PSW/baud/slot enter the model as inputs. Null policy values (open finding '
+        'F16) are excluded from one_policy_accepted (refutation witness included). PMD/PDL quadrature checked by the oracle only.',
         'DESIGN.md §7 C06'),
     'C09': (
         'Coq proof over a Q model of the power design (budget closure by induction along any OMS, power rule, saturation, '
@@ -74,7 +73,9 @@ CLAIMED = {
         'correspondence on select_edfa called directly and on every amplifier node of auto-designed networks + brute-force oracle',
         'Restriction precedence, permitted/band/Raman-only-if-allowed, capable => chosen capable and quietest (first '
         'minimum), exact fall-back and error behaviour proved for every library, NF assignment and target.',
-        'NF per candidate is an input (C04 owns the NF model). Multiband preselection (preselect_multiband_amps) is not modelled.',
+        'NF per candidate is an input (C04 owns the NF model). Multiband permitted set, preselection and per-band choice are '
+        'modelled; the clause "pick belongs to a permitted multiband model" is refuted (open finding F-multiband-leak). Multiband '
+        'nodes with an imposed type_variety are not generated.',
         'DESIGN.md §7 C10'),
     'C11': (
         'Proved validator (route_ok) + proved-complete DFS reference search (model_route) + potential certificates, '
@@ -102,7 +103,7 @@ CLAIMED = {
         'Round trips (exact over Q; finite PrimFloat instance for n in [-4000,4000]), bitmap length/marks, align_spec for '
         'all lists of well-formed maps, pointwise soundness/completeness of find_common_range, partition + pairing; the '
         'theorem hypotheses are decidable and evaluated in Coq on every explored network.',
-        'Four open findings have refuted-statement theorems. Off-grid band edges are compared but the FREE-exactly clause '
+        'Three open findings have refuted-statement theorems. Off-grid band edges are compared but the FREE-exactly clause '
         'is only counted there. The PrimFloat theorem depends on the kernel float primitives.',
         'DESIGN.md §7 C15'),
     'C18': (
@@ -112,8 +113,9 @@ CLAIMED = {
         'None<->[None], fmt/parse exact within declared digits and rounded once beyond, whole-document convert/back, six '
         'structural converter pairs, full dispatch round trip and idempotence for sim-params/spectrum/service documents, '
         'Edfa alias specification; refutation witnesses for the open findings.',
-        'Topology and equipment documents: per-converter + generic-layer theorems only; their composition, the loaders, '
-        'libyang acceptance and the API section are covered by the oracle and correspondence only.',
+        'Whole-document round trip proved for all five kinds under canonical key order (what the converters produce); equipment '
+        'with a RamanFiber raman_efficiency block (F16) and Transceiver per_degree_design_bands (F17) are open findings; the '
+        'loaders, libyang acceptance and the API section are covered by the oracle and correspondence only.',
         'DESIGN.md §7 C18'),
     'C13': (
         'Coq proof over an executable Q model (update_snr from raw figures, penalty normalisation/interpolation with '
@@ -150,6 +152,29 @@ CLAIMED = {
         'correction partially modelled. The real .xls parser is exercised by the shipped fixtures only (no xlwt). Open '
         'finding: Eqpt row on a FUSED site.',
         'DESIGN.md §7 C20'),
+    'C05': (
+        'Coq proof (Q: Raman-off budget, lumped merge, path additivity/permutation invariance, CD pi-cancellation, Euler '
+        'zero-power closed form and lumped-once; R: PMD/PDL quadrature, discretisation bound, zero-power limit, order-1 pump '
+        'gain) + correspondence on Fiber.__call__, designed paths, all permutations of <= 5 span units, '
+        '_create_lumped_losses and the Euler scheme',
+        'fiber_budget for every lumped list, lumped_merge (sum in dB / product in linear for every position list), path '
+        'totals additive and Permutation-invariant, quadrature folds, Euler solver: zero-power factor = step product x '
+        'lumped product with each lumped loss once, |ln + alpha L| bounded by 2 sum (alpha dz)^2.',
+        'Raman-on clauses beyond the Euler zero-power limit (perturbative orders 1-4 vs numerical, iterative co/counter '
+        'algorithm, counter-pump gain beyond order 1) are tested numerically with measured tolerances, not proved. R theorems '
+        'use the stdlib real axioms.',
+        'DESIGN.md §7 C05, §9'),
+    'C19': (
+        'Verified validator: response_ok proved equivalent to the declarative Spec; model of ResultElement.json proved to '
+        'meet Spec; proved models of requests_aggregation and of the jsontocsv row; every real response, CSV row and '
+        'aggregation result of random planning batches judged by the validator / compared with the models (vm_compute)',
+        'Spec: id, route hop by hop, labels iff served and equal to (N,M), transponder type/mode, forward/reverse metrics = '
+        'round-half-even to 2 decimals of exact means/min, blocked => reason and no labels, both directions iff '
+        'bidirectional; aggregation partitions the originals (joined id, summed bandwidth, concatenated N/M, equal compared '
+        'fields incl. bidir); CSV row states the observed values with Pass? = (OSNR+margin <= round2(min SNR)) and never raises.',
+        'Spec tolerates extra keys (exact shape covered by correspondence). watt2dbm enters the CSV model as a harness input. '
+        'Means within 1e-9 of a rounding tie are not judged (counted).',
+        'DESIGN.md §7 C19'),
 }
 
 NOT_YET = {}
